@@ -30,6 +30,8 @@ for sid in seeds:
     if not os.path.exists(os.path.join(d, "patch.diff")):
         continue
     meta = json.load(open(os.path.join(d, "meta.json")))
+    if "property" not in meta:
+        continue  # (behaviour-preserving changes are run by bin/harmless.py)
     props = props_override or [meta["property"]] + meta.get("also_check", [])
     props = [p for p in props if p in claimed]
     if not props:
